@@ -17,6 +17,7 @@ From PowHsm Require Import Proofs.SrcEquivParamsProtoM.
 From PowHsm Require Import Proofs.SrcEquivGateM.
 From PowHsm Require Import Proofs.SrcLiftGate.
 From PowHsm Require Import Proofs.SrcEquivGateV1M.
+From PowHsm Require Import Proofs.SrcLiftGate2.
 Open Scope N_scope.
 
 (* closed check on the generated except-ladders: every v5 handler maps a link error to (flag set, device error) and a timeout to (flag untouched, device error) *)
@@ -313,5 +314,27 @@ Theorem C11_source_whole_request_path_v1_is_model :
          srcm_HSM1ProtocolLedger____internal_handle_request cm init self (of_json request) w =
          mres of_json (handle_request keccak kind V1 request w).
 Proof. exact (@srcm_handle_request_v1_ok). Qed.
+
+(* a link fault at ANY exchange of an accepted command: the translated request path replies the device-error code, the fault is the last event, the flag is raised iff write/read error *)
+Theorem C11_source_link_fault_reply :
+  forall (keccak : bytes -> bytes) (kind : dongle_kind) (init : pm pv)
+           (cm : string -> pv -> list pv -> pr pv) (fuel : nat) (self : pv) 
+           (request : json) (cmd : str) (req : obj) (opname : str) (op : M rtuple)
+           (P : bytes -> resp -> bool) (rcn : bool) (w : world) (n : list event) 
+           (b : bytes) (f : resp),
+         env_ok keccak kind init cm fuel w ->
+         gate_request V5 request = GAccept cmd req ->
+         assoc_str cmd DISPATCH_V5 = Some opname ->
+         run_operation keccak kind V5 opname req = Some op ->
+         is_handler keccak kind V5 P rcn op ->
+         comm_issue w = false ->
+         news w (snd (op w)) n ->
+         In (Apdu b f) n ->
+         P b f = true ->
+         srcm_HSM2ProtocolLedger____internal_handle_request fuel cm init self (of_json request) w =
+         (XOk (of_json (error_reply (DEVICE V5))), snd (op w)) /\
+         comm_issue (snd (op w)) = is_comm_fault f /\
+         (exists pre : list event, n = pre ++ [Apdu b f] /\ clean P pre).
+Proof. exact (@src_link_fault_reply). Qed.
 
 Example C11_nonvacuous : True. Proof. exact I. Qed. (* concrete three-request lifetimes closed by vm_compute in Proofs/C11.v, Module Examples *)
